@@ -21,6 +21,8 @@ pub enum Case {
     Identities,
     /// bilinearity evaluated inside the library: e([b]P1, [a]P2) = e(P1, P2)^(ab mod N) with the library's own GT exponentiation
     Bilinear { a: String, b: String },
+    /// P given by explicit affine coordinates (no known discrete logarithm), Q = [a]P2: full reference evaluation
+    PairXY { px: String, py: String, a: String, lb: String, tag: String },
 }
 
 fn g0() -> &'static F12 {
@@ -49,6 +51,25 @@ pub fn eval(ctx: &Ctx, case: &Case) {
                 Guard::Done(bytes) if bytes == sm9::f12_bytes(&want) => ctx.outcome(&format!("ok/{}/{}", if *full { "full-reference" } else { "bilinear-reference" }, rep)),
                 Guard::Done(bytes) => ctx.violation(site, &format!("wrong-pairing-value/{}/{}", rep, tag), format!("a={} b={} got={}.. want={}..", hexbig(&a), hexbig(&b), hex::encode(&bytes[..32.min(bytes.len())]), f12_hex(&want)), cj()),
                 Guard::Panic(p) => ctx.violation(site, &format!("panic/{}/{}", panic_site(&p), rep), p, cj()),
+            }
+        }
+        Case::PairXY { px, py, a, lb, tag } => {
+            let pp: refmodels::sm9::G1 = Some((hb(px), hb(py)));
+            if !pr.e1.on_curve(&pp) {
+                ctx.machinery_error("PairXY point is not on the curve");
+                return;
+            }
+            let a = hb(a);
+            let qq = sm9::g2_mul(&a, &pr.p2);
+            let (lp, lq) = (lib_g1(&pp, &hb(lb)), lib_g2_affine(&qq));
+            ctx.call();
+            let got = guard(|| hook::pairing(&lq, &lp).to_bytes_be());
+            let want = sm9::pairing(&pp, &qq);
+            ctx.trace();
+            match got {
+                Guard::Done(bytes) if bytes == sm9::f12_bytes(&want) => ctx.outcome("ok/full-reference/explicit-point"),
+                Guard::Done(bytes) => ctx.violation(site, &format!("wrong-pairing-value/explicit-point/{}", tag), format!("P=({}, {}) a={} got={}.. want={}..", px, py, hexbig(&a), hex::encode(&bytes[..32.min(bytes.len())]), f12_hex(&want)), cj()),
+                Guard::Panic(p) => ctx.violation(site, &format!("panic/{}/explicit-point", panic_site(&p)), p, cj()),
             }
         }
         Case::Bilinear { a, b } => {
@@ -115,7 +136,7 @@ pub fn run(ctx: &Arc<Ctx>) {
     let pr = sm9::params();
     let n = pr.n.clone();
     let _ = g0();
-    ctx.set_rule("P = [b]P1, Q = [a]P2 for a, b in {1,2,3,N-1,N-2,2^128,Annex ks,seeded}: full product a x b with both inputs affine, compared byte for byte (384 bytes) with e(P1,P2)^(ab) computed by the reference; the diagonal and a spread of pairs additionally against a full reference evaluation (generic Miller loop over 6t+2, two Frobenius steps, exponent (p^12-1)/N) on those very points; every pair again with Jacobian inputs Z != 1 (P, Q, both); structured Z (Q.z in Fp, purely imaginary, P.z in {2, p-1}); identity arguments (a or b = 0 mod N) give 1; bilinearity re-evaluated with the library's own GT exponentiation incl. exponents with all-zero 64-bit limbs and the boundary exponents N-1, N-2; e(P1,P2) != 1 and of order N; the GM/T 0044.5 value of e(P1,Ppub-s).");
+    ctx.set_rule("P = [b]P1, Q = [a]P2 for a, b in {1,2,3,N-1,N-2,2^128,Annex ks,seeded}: full product a x b with both inputs affine, compared byte for byte (384 bytes) with e(P1,P2)^(ab) computed by the reference; the diagonal and a spread of pairs additionally against a full reference evaluation (generic Miller loop over 6t+2, two Frobenius steps, exponent (p^12-1)/N) on those very points; every pair again with Jacobian inputs Z != 1 (P, Q, both); structured Z (Q.z in Fp, purely imaginary, P.z in {2, p-1}); G1 points given by coordinates whose Montgomery form is a small plain integer (x = k R^-1, y = k R^-1) against a full reference evaluation; identity arguments (a or b = 0 mod N) give 1; bilinearity re-evaluated with the library's own GT exponentiation incl. exponents with all-zero 64-bit limbs and the boundary exponents N-1, N-2; e(P1,P2) != 1 and of order N; the GM/T 0044.5 value of e(P1,Ppub-s).");
     let mut g = SplitMix::new(ctx.seed, "c12");
     let nseed = ctx.tier.pick(4usize, 60);
     let mut sc: Vec<(String, BigUint)> = vec![
@@ -190,6 +211,48 @@ pub fn run(ctx: &Arc<Ctx>) {
                     cases.push(Case::Pair { a: hexbig(a), b: hexbig(b), la: la.clone(), lb: lb.clone(), full: false, tag: "structured-Z".into() });
                 }
             }
+        }
+    }
+    // G1 points with a coordinate whose Montgomery form is a small plain integer (x = k R^-1 mod p): a comparison with the
+    // plain constant 1 instead of the Montgomery constant fires exactly there. Every curve point is in G1 (cofactor 1).
+    {
+        let rinv = (BigUint::one() << 256usize).modpow(&(&pr.p - 2u32), &pr.p);
+        let sqrt_exp_ok = |rhs: &BigUint| -> Option<BigUint> {
+            // Tonelli-Shanks is not needed: try y = rhs^((p+1)/4) only when p = 3 mod 4, else search by the curve's own sqrt
+            refmodels::sm9::sqrt_fp(rhs)
+        };
+        let mut found = 0;
+        for k in 1u32..40 {
+            let x = (&rinv * k) % &pr.p;
+            let rhs = (&x * &x * &x + 5u32) % &pr.p;
+            if let Some(y) = sqrt_exp_ok(&rhs) {
+                for (yy, lb) in [(y.clone(), one1.clone()), (&pr.p - &y, lam1.clone())] {
+                    cases.push(Case::PairXY { px: hexbig(&x), py: hexbig(&yy), a: hexbig(&sc[7].1), lb, tag: "x=k*R^-1".into() });
+                }
+                found += 1;
+                if found == 3 {
+                    break;
+                }
+            }
+        }
+        // the same for y: y = k R^-1 needs a cube root of y^2 - 5 (exists for a third of the values)
+        let mut found_y = 0;
+        for k in 1u32..60 {
+            let y = (&rinv * k) % &pr.p;
+            let t = (&y * &y + &pr.p - 5u32) % &pr.p;
+            if let Some(x) = refmodels::sm9::cbrt_fp(&t) {
+                cases.push(Case::PairXY { px: hexbig(&x), py: hexbig(&y), a: hexbig(&sc[8].1), lb: one1.clone(), tag: "y=k*R^-1".into() });
+                cases.push(Case::PairXY { px: hexbig(&x), py: hexbig(&y), a: hexbig(&BigUint::one()), lb: lam1.clone(), tag: "y=k*R^-1".into() });
+                found_y += 1;
+                if found_y == 3 {
+                    break;
+                }
+            }
+        }
+        found += found_y;
+        ctx.cov("explicit_points_with_montgomery_small_coordinate", json!(found));
+        if found == 0 {
+            ctx.machinery_error("no curve point with x = k R^-1 found");
         }
     }
     // identity arguments: a or b = 0 mod N
